@@ -553,6 +553,15 @@ func main() {
 				s, m := run(c.model, c.dev, c.spoc, r)
 				runs++
 				record(s, m, c, c.dev, c.spoc, r)
+				// the same minimal text as Netspoc code, the original code as raw / as device
+				if r != c.spoc {
+					s, m = run(c.model, c.dev, r, c.spoc)
+					runs++
+					record(s, m, c, c.dev, r, c.spoc)
+					s, m = run(c.model, r, c.spoc, "")
+					runs++
+					record(s, m, c, r, c.spoc, "")
+				}
 			}
 		}
 	}
